@@ -737,6 +737,9 @@ func seqSearch(p *Prop, j *Job, spec *SeqSpec) *JobResult {
 				}
 				run := runHistory(spec, h)
 				res.Execs++
+				if len(res.Sample) == 0 && len(h) >= 3 {
+					res.Sample = []string{histString(h)} // an actual history of this run (replaced by a deeper one at the end)
+				}
 				if run.NeedChoice > 0 {
 					for a := 0; a < run.NeedChoice; a++ {
 						e2 := e
@@ -804,7 +807,7 @@ func seqSearch(p *Prop, j *Job, spec *SeqSpec) *JobResult {
 		// depth bound reached with states left to expand: complete within the bound
 		res.CapHit = ""
 	}
-	if len(res.Sample) == 0 && len(frontier) > 0 {
+	if len(frontier) > 0 {
 		res.Sample = []string{histString(histOf(frontier[len(frontier)/2]))}
 	}
 	res.Outcomes[fmt.Sprintf("states=%d", res.States)] = 1
